@@ -1,6 +1,8 @@
 pub mod c05;
 pub mod c06;
 pub mod c09;
+pub mod c11;
+pub mod c17;
 pub mod c20;
 pub mod epc;
 pub mod eps;
